@@ -1,7 +1,7 @@
 (* C27/Codec.v -- third round: the SCALE encoding of the records CheckEquivocation stores under
    slot_header_map ++ LE64 slot, and its decoder.  Definitions only.
      value   = scale([][]byte)          = compact(#records) ++ concat (compact(len r_i) ++ r_i)
-     r_i     = scale(headerAndSigner)   = scale(Header) ++ Signer(32 bytes)
+     r_i     = scale(headerAndSigner)   = 0x01 (Some: Header is a pointer) ++ scale(Header) ++ Signer(32 bytes)
      Header  = ParentHash(32) ++ compact(Number) ++ StateRoot(32) ++ ExtrinsicsRoot(32) ++ Digest
      Digest  = compact(#items) ++ concat items
      item    = index byte (6 PreRuntime | 4 Consensus | 5 Seal) ++ engine id (4 bytes) ++
@@ -24,7 +24,8 @@ Definition enc_item (i : ditem) : list byte := n2b (di_tag i) :: di_engine i ++ 
 Definition enc_header (h : header) : list byte :=
   h_parent h ++ compact_encode (h_number h) ++ h_state h ++ h_ext h
   ++ compact_encode (N.of_nat (length (h_digest h))) ++ concat (map enc_item (h_digest h)).
-Definition enc_record (r : srecord) : list byte := enc_header (fst r) ++ snd r.
+(* Header is a *types.Header: scale encodes the pointer as an Option, 0x01 = Some *)
+Definition enc_record (r : srecord) : list byte := n2b 1 :: enc_header (fst r) ++ snd r.
 Definition enc_stored (rs : list srecord) : list byte :=
   compact_encode (N.of_nat (length rs)) ++ concat (map (fun r => enc_bytes (enc_record r)) rs).
 
@@ -86,12 +87,18 @@ Definition dec_header (bs : list byte) : option (header * list byte) :=
   end.
 (* scale.Unmarshal(encodedHeaderAndSigner, &decodedHeaderAndSigner) *)
 Definition dec_record (bs : list byte) : option srecord :=
-  match dec_header bs with
-  | Some (h, r) => match take 32 r with
-                   | Some (sg, []) => Some (h, sg)
-                   | _ => None
-                   end
-  | None => None
+  match bs with
+  | ob :: bs' =>
+    if b2n ob =? 1 then
+      match dec_header bs' with
+      | Some (h, r) => match take 32 r with
+                       | Some (sg, []) => Some (h, sg)
+                       | _ => None
+                       end
+      | None => None
+      end
+    else None          (* 0x00 = nil header: never written by CheckEquivocation *)
+  | [] => None
   end.
 Definition dec_record_framed (bs : list byte) : option (srecord * list byte) :=
   match dec_bytes bs with
